@@ -1,2 +1,172 @@
--- driver stub for C13 (replaced when the model is built)
-def main : IO Unit := pure ()
+import PyramidModel.Prelude
+import PyramidModel.Skeleton
+import PyramidModel.Pipeline
+import PyramidModel.Gen.C13Skeleton
+/-! Driver for C13: one JSON case per line.
+
+{"op":"pipeline","xv":b,"base":n,"req":REQ}
+   REQ = {"tw":b,"route":b,"faults":[[point,kind],…],"regs":[[stage,"resp"|"fin",kind|null],…],"xx":kind|null,"subs":[REQ,…]}
+   -> {"tree":TREE}   TREE = {"own":[event,…],"out":"resp"|"plain"|"http","depth":n,"kids":[TREE,…]}
+{"op":"exec","entry":name,"depth":n,"raises":[[site,k],…],"takes":[[site,k],…],"iters":[[site,k,n],…],"quiet":[site,…]}
+   -> {"depth":n,"outcome":"normal"|"returned"|"raised","trace":[[site,depth,flag],…] (oldest first),
+       "balanced":b,"opens":b,"closes":b}
+{"op":"sites"} -> {"sites":[name,…],"noRaise":[…],"entries":[name,…]}
+-/
+open Pyr Lean
+open Pyr.Skel (Stmt Oracle Cfg exec)
+open Pyr.Pipeline (Req Reqs Tr Ev Outcome Point Kind CbKind Reg Exc)
+
+def parseKind (s : String) : Except String Kind :=
+  match s with
+  | "plain" => pure .plain
+  | "http" => pure .http
+  | "soft" => pure .soft
+  | _ => throw s!"bad kind {s}"
+
+def parsePoint (s : String) : Except String Point :=
+  match s with
+  | "tweenOverIn" => pure .tweenOverIn | "tweenUnderIn" => pure .tweenUnderIn | "newRequest" => pure .newRequest
+  | "routePred" => pure .routePred | "beforeTraversal" => pure .beforeTraversal | "routeFactory" => pure .routeFactory
+  | "rootFactory" => pure .rootFactory | "traverser" => pure .traverser | "contextFound" => pure .contextFound
+  | "viewPred" => pure .viewPred | "perm" => pure .perm | "viewBody" => pure .viewBody | "renderer" => pure .renderer
+  | "tweenUnderOut" => pure .tweenUnderOut | "excView" => pure .excView | "tweenOverOut" => pure .tweenOverOut
+  | "newResponse" => pure .newResponse
+  | _ => throw s!"bad point {s}"
+
+def pointName : Point → String
+  | .tweenOverIn => "tweenOverIn" | .tweenUnderIn => "tweenUnderIn" | .newRequest => "newRequest"
+  | .routePred => "routePred" | .beforeTraversal => "beforeTraversal" | .routeFactory => "routeFactory"
+  | .rootFactory => "rootFactory" | .traverser => "traverser" | .contextFound => "contextFound"
+  | .viewPred => "viewPred" | .perm => "perm" | .viewBody => "viewBody" | .renderer => "renderer"
+  | .tweenUnderOut => "tweenUnderOut" | .excView => "excView" | .tweenOverOut => "tweenOverOut"
+  | .newResponse => "newResponse"
+
+def optKind (j : Json) : Except String (Option Kind) :=
+  match j with
+  | .null => pure none
+  | .str s => do pure (some (← parseKind s))
+  | _ => throw "bad optional kind"
+
+def optField (j : Json) (k : String) : Json :=
+  match j.getObjVal? k with
+  | .ok v => v
+  | .error _ => .null
+
+def boolField (j : Json) (k : String) : Bool :=
+  match optField j k with
+  | .bool b => b
+  | _ => false
+
+def arrField (j : Json) (k : String) : Except String (List Json) :=
+  match optField j k with
+  | .null => pure []
+  | .arr xs => pure xs.toList
+  | _ => throw s!"field {k} is not a list"
+
+partial def parseReq (j : Json) : Except String Req := do
+  let faults ← (← arrField j "faults").mapM fun f => do
+    match f with
+    | .arr #[.str p, .str k] => pure ((← parsePoint p), (← parseKind k))
+    | _ => throw "bad fault"
+  let regs ← (← arrField j "regs").mapM fun r => do
+    match r with
+    | .arr #[.str st, .str kd, f] =>
+      let kind ← match kd with
+        | "resp" => pure CbKind.resp
+        | "fin" => pure CbKind.fin
+        | _ => throw "bad callback kind"
+      pure (Reg.mk (← parsePoint st) kind (← optKind f))
+    | _ => throw "bad reg"
+  let xx ← optKind (optField j "xx")
+  let subs ← (← arrField j "subs").mapM parseReq
+  let cfg : Pipeline.Cfg := { useTweens := boolField j "tw", route := boolField j "route", faults := faults,
+                              regs := regs, explicitXv := xx }
+  pure (.mk cfg (subs.foldr (fun r rs => Reqs.cons r rs) Reqs.nil))
+
+def cbName : CbKind → String
+  | .resp => "resp"
+  | .fin => "fin"
+
+def evJson : Ev → Json
+  | .hook p c d => toJson [Json.str "hook", Json.str (pointName p), toJson c, toJson d]
+  | .reg k i => toJson [Json.str "reg", Json.str (cbName k), toJson i]
+  | .cb k i c d => toJson [Json.str "cb", Json.str (cbName k), toJson i, toJson c, toJson d]
+  | .chain b => toJson [Json.str "chain", toJson b]
+  | .resume c d => toJson [Json.str "resume", toJson c, toJson d]
+  | .sub i => toJson [Json.str "sub", toJson i]
+
+def outName : Outcome → String
+  | .resp => "resp"
+  | .raised .plain => "plain"
+  | .raised .http => "http"
+
+partial def trJson : Tr → Json
+  | .node own out d kids => Json.mkObj [
+      ("own", Json.arr (own.map evJson).toArray),
+      ("out", Json.str (outName out)),
+      ("depth", toJson d),
+      ("kids", Json.arr (kids.map trJson).toArray)]
+
+def pairsOf (j : Json) (k : String) : Except String (List (Nat × Nat)) := do
+  (← arrField j k).mapM fun x => do
+    let l : List Nat ← fromJson? x
+    match l with
+    | [a, b] => pure (a, b)
+    | _ => throw "bad pair"
+
+def triplesOf (j : Json) (k : String) : Except String (List (Nat × Nat × Nat)) := do
+  (← arrField j k).mapM fun x => do
+    let l : List Nat ← fromJson? x
+    match l with
+    | [a, b, c] => pure (a, b, c)
+    | _ => throw "bad triple"
+
+def outcomeName : Skel.Outcome → String
+  | .normal => "normal"
+  | .returned => "returned"
+  | .raised => "raised"
+
+def main : IO Unit := jsonDriver fun j => do
+  let op : String ← getAs j "op"
+  match op with
+  | "pipeline" =>
+    let xv := boolField j "xv"
+    let base : Nat ← getAs j "base"
+    let req ← parseReq (← getField j "req")
+    let stack0 : List Pipeline.Path := List.replicate base [999999]
+    let (tr, _, _) := Pipeline.runTop xv req stack0
+    return Json.mkObj [("tree", trJson tr)]
+  | "exec" =>
+    let entry : String ← getAs j "entry"
+    let depth : Nat ← getAs j "depth"
+    let raises ← pairsOf j "raises"
+    let takes ← pairsOf j "takes"
+    let iters ← triplesOf j "iters"
+    let quiet : List Nat ← (do
+      let xs ← arrField j "quiet"
+      xs.mapM fun x => (fromJson? x : Except String Nat))
+    match Gen.C13.allDefs.find? (fun d => d.1 == entry) with
+    | none => throw s!"no skeleton named {entry}"
+    | some (_, s) =>
+      let o : Oracle := {
+        raises := fun st k => raises.contains (st, k),
+        takes := fun st k => takes.contains (st, k),
+        iters := fun st k => match iters.find? (fun t => t.1 == st && t.2.1 == k) with
+          | some t => t.2.2
+          | none => 0 }
+      let (c, oc) := exec o s { depth := depth }
+      let q := Skel.quietList (Gen.C13.noRaise ++ quiet)
+      return Json.mkObj [
+        ("depth", toJson c.depth),
+        ("outcome", Json.str (outcomeName oc)),
+        ("trace", Json.arr (c.trace.reverse.map fun v => toJson [toJson v.1, toJson v.2.1, toJson v.2.2]).toArray),
+        ("balanced", toJson (Skel.balanced q s)),
+        ("opens", toJson (Skel.opens q s)),
+        ("closes", toJson (Skel.closes q s))]
+  | "sites" =>
+    return Json.mkObj [
+      ("sites", toJson Gen.C13.siteNames),
+      ("noRaise", toJson Gen.C13.noRaise),
+      ("unknowns", toJson Gen.C13.unknowns),
+      ("entries", toJson (Gen.C13.allDefs.map (·.1)))]
+  | _ => throw s!"bad op {op}"
